@@ -16,7 +16,7 @@ use std::collections::HashMap;
 
 pub fn run(ctx: &Ctx) -> i32 {
     let mon = Mon::new();
-    let n = ctx.tier.pick(200, 3000);
+    let n = ctx.tier.pick(800, 6000);
     par_cases(ctx, &mon, "hist", n, |cc, rng, l| {
         let hot = cc.idx % 5 == 0;
         let mut case = HistCase::random(rng, ctx.tier.pick(14, 30), ctx.tier.pick(8, 14), 5, hot);
